@@ -59,6 +59,18 @@ ADD6 = {
  "C20": " Sixth round: a phase driving every constant-consulting routine through its mathematically exceptional inputs (Elligator exceptional values incl. through the XOF suites with a constant expander, u = -1, identity/small-order operands and keys, zero inverses), the shared field constants compared after each operation and the whole enumeration repeated afterwards.",
 }
 
+ADD7 = {
+ "C03": " Seventh round: a reflection-driven contract monitor (package fluent) calls every method of EdwardsPoint, ExpandedEdwardsPoint and the base-point table whose first result has the receiver's type and requires that it returns its receiver (or nil with an error), not an operand or another object.",
+ "C04": " Seventh round: the same receiver-identity contract for every field.Element method.",
+ "C05": " Seventh round: the same receiver-identity contract for every Scalar method.",
+ "C06": " Seventh round: the shared workload has a deterministic grid special coefficient (0, 1, 2, 8, L-1, L-2, L-8, L+1, 2^252) x every pool point (torsion, mixed order, prime order) through every multiscalar entry point.",
+ "C07": " Seventh round: scalars that are special with respect to the group (clamped values jL + e, j = 4..7, |e| <= 40) through every base-point entry point (incl. the exported Basepoint fast path) and against a few peer values.",
+ "C10": " Seventh round: the receiver-identity contract for CompressedEdwardsY, MontgomeryPoint and EdwardsPoint methods.",
+ "C11": " Seventh round: the receiver-identity contract for RistrettoPoint, CompressedRistretto, expanded points and the table.",
+ "C14": " Seventh round: customised cSHAKE instances (non-empty function name and/or customisation string) as the caller's XOF, through the expander (incl. over-long DSTs) and the XOF suites.",
+ "C19": " Seventh round: every batch entry point runs in six verifier configurations (fresh, key expansion off, behind / in front of a valid companion, both, capacity hint) which must agree, with batch-only verification and a second Verify.",
+}
+
 CLAIMED = {
  # id: (technique, level text, level note, design_ref)
  "C01": ("reference-model monitor (big-integer RFC 8032 predicate + crypto/ed25519) shadowing every verification call over adversarial input families, 4 backends",
@@ -132,7 +144,7 @@ def main():
         i = p['id']
         if i in CLAIMED:
             tech, text, note, ref = CLAIMED[i]
-            text = text + ADDENDA.get(i, "") + ADD6.get(i, "")
+            text = text + ADDENDA.get(i, "") + ADD6.get(i, "") + ADD7.get(i, "")
             tech = tech + TECH_ADD.get(i, "")
             checks.append({
                 "property_id": i,
